@@ -21,6 +21,12 @@
 // the grouping, augment-not-found the augment, identity-base-* and the deviation classes the
 // module statement of the (deviating) module, cycles the re-entered grouping / the identity).
 //
+// Source names (names.go): every set, and before them the hand-written single-fault modules of
+// corpus/C16/sem, is processed a second time under names with characters special to some layer
+// (fmt verbs, blanks, quotes, brackets, backslash, non-ASCII, very long, `:`), in memory and as files
+// below directories of such names: the file part of every position must be the given name byte for
+// byte, and everything judged above must come out as under the plain names.
+//
 // With -driver <drv_res> the error records (file:line:col:class) of every faulted set that the
 // builder accepts are also compared with the resolver model (whole pipeline, plugFull): the tie
 // between the theorems and the Go code.  `type-cycle` is the only class compared without position
@@ -1381,8 +1387,9 @@ func main() {
 			res.AddDisagreement(lib.Disagreement{Kind: "spec", Input: w, Go: v0.Raw, SpecVerdict: "violates", What: w.Fault + ": " + why, Replay: w})
 			continue
 		}
+		wBad := 0 // (at most 5 recorded per witness, 25 in all: room for the generated sets)
 		for k := range shapes {
-			if namedBad >= 50 {
+			if wBad >= 5 || namedBad >= 25 {
 				break
 			}
 			wg := w
@@ -1398,6 +1405,7 @@ func main() {
 			}
 			if why != "" {
 				namedBad++
+				wBad++
 				res.AddDisagreement(lib.Disagreement{Kind: "spec", Input: wg, Go: vg.Raw, SpecVerdict: "violates",
 					What: "source names (" + wg.Naming.Label + "; given " + fmt.Sprintf("%q", wg.Naming.Given) + "): " + why, Replay: wg})
 			}
@@ -1453,7 +1461,7 @@ func main() {
 		}
 		// the same set under source names with characters special to some layer (names.go): for a
 		// given fault kind the shapes rotate (step 5), so every kind meets the fmt verbs early
-		if namedBad < 50 {
+		if namedBad < 25 {
 			rn := f.Rand(1<<24 + i)
 			cg := *c
 			cg.Naming = mkNaming(rn, (i/period)*5+kind, c.Names)
